@@ -55,6 +55,9 @@ TRUSTED = [
     "hypotheses on the hasher H (outputs non-empty and free of , ; : | { }; injective) stand for SHA-256 hexdigest being collision-free: premises of "
     "C05_verdict_partial / C05_knob_independence / C05_different_hash_nonempty, not axioms; satisfiable (unary_hash, proved); C05_equal_gives_empty needs none",
     "max_diffs, custom operators, exclude/include paths, numpy, custom objects, cyclic/shared containers are outside the model",
+    "source tie `iopairs` (in addition to, not instead of, the correspondence): the translator harness/translate/iopairs.py with the encoding / oracle / skip "
+    "rules of its docstring is trusted for the fragment it translates only (the pairs selection and the decision whether pairs are computed); the rough distance "
+    "of two items is an oracle (a table) there, as in the hand model",
 ]
 ASSUMPTIONS = ["tree-shaped inputs: no mutable object occurs at two positions", "no nan/inf/-0.0", "0 <= threshold_to_diff_deeper <= 1"]
 
@@ -1792,14 +1795,14 @@ def on_source_tie_break(ctx, name, rec):
     body = ("Local Open Scope string_scope.\nDefinition cases : list (sx * sx) := [\n%s\n].\nEval vm_compute in run_cases cases.\n"
             % ";\n".join('(%s,\n SL [SA "T"; SA "T"; SA "T"; SA "T"])' % e for e in cases))
     syn = ("Local Open Scope string_scope.\nEval vm_compute in (\"BEGIN\" ++ nl ++ show_sx (SL ["
-           "sx_synthetic g__get_most_in_common_pairs_in_iterables 4%Z [0; 1]%Z [10; 11; 12]%Z [1; 2; 5]%Z; "
-           "sx_synthetic g__get_most_in_common_pairs_in_iterables 4%Z [0; 1; 2]%Z [10; 11]%Z [1; 2; 5]%Z; "
+           "sx_synthetic g__get_most_in_common_pairs_in_iterables 4%Z [0; 1]%Z [10; 11; 12]%Z [1; 2; 4]%Z; "
+           "sx_synthetic g__get_most_in_common_pairs_in_iterables 4%Z [0; 1; 2]%Z [10; 11]%Z [1; 4; 5]%Z; "
            "sx_synthetic g__get_most_in_common_pairs_in_iterables 4%Z [0; 1; 2]%Z [10; 11; 12]%Z [1; 5]%Z; "
            "sx_decision g__diff_iterable_with_deephash_pairs]) ++ nl ++ \"END\").\n")
     from concurrent.futures import ThreadPoolExecutor
     with ThreadPoolExecutor(max_workers=2) as ex:
         (ra, ea), (rb, eb) = ex.map(lambda x: _tie_coq(ctx, *x), [("search_recorded", body), ("search_synthetic", syn)])
-    out["synthetic_tables(2x3,3x2 over 3 distances; 3x3 over 2): [#generated<>hand, first, #predicate fails, first, witness]; "
+    out["synthetic_tables(2x3,3x2 over 3 distances incl. one equal to the cut-off; 3x3 over 2): [#generated<>hand, first, #predicate fails, first, witness]; "
         "pairs decision: [settings (cutoff_intersection, max_passes, pass counter, #added, #removed) enumerated, #generated<>hand, first]"] = \
         rb.strip() if rb is not None else "the differencing file did not compile against the regenerated model: " + str(eb)
     import re as _re
